@@ -74,9 +74,9 @@ def _str_labels(ints):
     return out
 
 
-def gen_grouping(rng, n, kinds=('unique', 'groups', 'allsame'), allow_allsame=True):
+def gen_grouping(rng, n, kinds=('unique', 'groups', 'allsame'), allow_allsame=True, typ=None):
     kind = rng.pick([k for k in kinds if allow_allsame or k != 'allsame'])
-    typ = rng.pick(['int', 'str'])
+    typ = typ or rng.pick(['int', 'str'])
     cont = rng.pick(['list', 'array'])
     if kind == 'unique':
         labs = list(range(n))
